@@ -392,6 +392,15 @@ Definition prefix_size (mn : string) (ops : list pop) (md : mode) : Z :=
   (if String.eqb mn "IN" || String.eqb mn "OUT" then inout_prefix mn ops md else if require66 ops md && negb (has_creg ops) then 1 else 0)
   + (if require67 ops md then 1 else 0).
 
+(* findOutputSize: FindMinOutputSize looks the encoding up with matchAnyImm = true first, FindExactImmOutputSize (IMUL, since the
+   fix in /repo) with matchAnyImm = false first, as handleIMUL does *)
+Definition find_size_first (first : bool) (mn : string) (ops : list pop) (md : mode) (force : bool) : option Z :=
+  let r := match find_encoding mn ops md force first with Some r => Some r | None => find_encoding mn ops md force (negb first) end in
+  match r with
+  | Some r => Some (r_base r + prefix_size mn ops md + calc_offset_size ops md + calc_sib_size ops md)
+  | None => None
+  end.
+
 Definition find_min_size (mn : string) (ops : list pop) (md : mode) (force : bool) : option Z :=
   let r := match find_encoding mn ops md force true with Some r => Some r | None => find_encoding mn ops md force false end in
   match r with
@@ -439,7 +448,7 @@ Definition est_instr (md : mode) (mn : string) (es : list exp) : est_res :=
         if negb (Nat.eqb (Datatypes.length es) 1) then EstDiag else
         match find_min_size "NOT" ops md false with Some n => EstSize n | None => EstDiag end
       else if String.eqb h "processIMUL" then
-        match find_min_size "IMUL" ops md false with
+        match find_size_first false "IMUL" ops md false with
         | None => EstDiag
         | Some n =>
             let ts := operand_types ops md false in
